@@ -10,7 +10,8 @@
     [fmt_f32] / [parse_f32] stand for strconv's float32 formatting/parsing. *)
 From Coq Require Import ZArith List Bool Lia.
 From Hts Require Import Base.Prim Generated Model.SamText Model.SamSpec.
-From Hts Require Import Proofs.SamBytes Proofs.SamFormat Proofs.SamParse Proofs.SamReader Proofs.SamBam Proofs.SamAux.
+From Hts Require Import Proofs.SamBytes Proofs.SamFormat Proofs.SamParse Proofs.SamReader Proofs.SamBam
+  Proofs.SamInverse Proofs.SamAux Proofs.SamRoundtrip.
 Import ListNotations.
 Open Scope Z_scope.
 
@@ -60,43 +61,66 @@ Theorem sam_format_is_spec :
 Proof. exact format_is_spec_gen. Qed.
 Print Assumptions sam_format_is_spec.
 
-(** Round trip, as far as it is proved: for every valid record whose
-    variable-length parts are absent ([core_only]: no CIGAR, no sequence, no
-    quality, no aux fields) — i.e. for all names, flags, references, mate
-    references incl. "=" and "*", positions, mapping qualities and template
-    lengths — and both parseable flag formats: MarshalSAM yields a line,
-    UnmarshalSAM of it yields the record field by field ([core_of r]), and
-    MarshalSAM of that record yields the same line.
-    MISSING for the full statement [sam_roundtrip]: the inverse lemmas for
-    ParseCigar/Cigar.String, contract/Expand, quality +-33 and ParseAux/samAux
-    (these parts are covered on every run by the correspondence of model and
-    implementation and by the independent oracle only). *)
-Theorem sam_roundtrip_partial :
-  forall (fmt_f32 : Z -> list Z) (parse_f32 : list Z -> option Z) (h : header) (r : samrec) (fl : Z),
-    valid 8 h r -> core_only r -> (fl = sam_FlagDecimal \/ fl = sam_FlagHex) ->
-    exists line,
-      format_record fmt_f32 h fl r = Ok line /\
-      parse_record parse_f32 h line = Ok (core_of r) /\
-      format_record fmt_f32 h fl (core_of r) = Ok line.
-Proof. exact roundtrip_core_gen. Qed.
-Print Assumptions sam_roundtrip_partial.
-
-(** Aux fields, scalar types: for every aux field of type A, c/C/s/S/i/I, f or
-    Z that is expressible in SAM text, under the law of strconv
-    [parse_f32 (fmt_f32 x) = Some x] on the float values that occur (premise;
-    validated against strconv and IEEE 754 on every run, NaN excluded):
-    ParseAux of the text samAux.String writes succeeds, keeps the tag and
-    yields the same value (integers by value: the text does not carry the
-    width).  MISSING: H and B (array) fields. *)
-Theorem sam_aux_roundtrip_partial :
+(** SAM text round trip.  For every header and every record expressible in
+    SAM text ([valid 8], see above; Phred values 0..93 or absent), under the
+    premises on strconv's float32 text for the float values [f32_ok] that
+    occur in the record (parsing what was formatted gives the value back; the
+    text contains neither TAB nor comma — validated on every run against
+    strconv and IEEE 754, NaN excluded), and for both parseable flag formats
+    (decimal, hexadecimal):
+      * MarshalSAM gives a line;
+      * UnmarshalSAM of that line against the same header succeeds and gives
+        [rec_back r]: [r] itself except that an absent quality is in its
+        canonical form (nil without a sequence, all 0xff with one) and aux
+        integers have the smallest type that holds their value;
+      * [rec_back r] has the same view at the level of the specification as
+        [r] — every field equal, aux integers compared by value;
+      * MarshalSAM of [rec_back r] gives the identical line. *)
+Theorem sam_roundtrip :
   forall (fmt_f32 : Z -> list Z) (parse_f32 : list Z -> option Z) (f32_ok : Z -> Prop),
     (forall x, f32_ok x -> parse_f32 (fmt_f32 x) = Some x) ->
+    (forall x, f32_ok x -> free 9 (fmt_f32 x) /\ free 44 (fmt_f32 x)) ->
+    forall (h : header) (r : samrec) (fl : Z),
+      valid 8 h r -> phred_ok (r_qual r) ->
+      Forall (fun a => floats_ok_all f32_ok (a_val a)) (r_aux r) ->
+      (fl = sam_FlagDecimal \/ fl = sam_FlagHex) ->
+      exists line,
+        format_record fmt_f32 h fl r = Ok line /\
+        parse_record parse_f32 h line = Ok (rec_back r) /\
+        view h (rec_back r) = view h r /\
+        format_record fmt_f32 h fl (rec_back r) = Ok line.
+Proof. exact roundtrip_gen. Qed.
+Print Assumptions sam_roundtrip.
+
+(** Aux fields of all eleven types: ParseAux reads back the text samAux.String
+    writes — same tag, same value, integers in the smallest type ([aux_back]). *)
+Theorem sam_aux_roundtrip :
+  forall (fmt_f32 : Z -> list Z) (parse_f32 : list Z -> option Z) (f32_ok : Z -> Prop),
+    (forall x, f32_ok x -> parse_f32 (fmt_f32 x) = Some x) ->
+    (forall x, f32_ok x -> free 9 (fmt_f32 x) /\ free 44 (fmt_f32 x)) ->
     forall a,
-      auxv_ok (a_val a) -> scalar (a_val a) -> floats_ok f32_ok (a_val a) ->
-      exists txt a', format_aux fmt_f32 a = Some txt /\ parse_aux parse_f32 txt = Ok a' /\
-                     a_t0 a' = a_t0 a /\ a_t1 a' = a_t1 a /\ view_val (a_val a') = view_val (a_val a).
-Proof. exact aux_scalar_roundtrip. Qed.
-Print Assumptions sam_aux_roundtrip_partial.
+      auxv_ok (a_val a) -> floats_ok_all f32_ok (a_val a) ->
+      format_aux fmt_f32 a = Some (spec_opt fmt_f32 ([a_t0 a; a_t1 a], view_val (a_val a))) /\
+      parse_aux parse_f32 (spec_opt fmt_f32 ([a_t0 a; a_t1 a], view_val (a_val a))) = Ok (aux_back a) /\
+      view_val (a_val (aux_back a)) = view_val (a_val a).
+Proof. exact aux_roundtrip_full. Qed.
+Print Assumptions sam_aux_roundtrip.
+
+(** The pieces, each for all inputs: ParseCigar after Cigar.String, contract
+    after Expand. *)
+Theorem sam_cigar_roundtrip :
+  forall c, Forall (fun co => 0 <= co < 2 ^ 32 /\ co mod 16 <= 8) c ->
+    cigar_string c = Some (spec_cigar (map (fun co => (co / 16, co mod 16)) c)) /\
+    parse_cigar (spec_cigar (map (fun co => (co / 16, co mod 16)) c)) = Ok c.
+Proof. exact (fun c H => conj (cigar_string_spec c H) (parse_cigar_back c H)). Qed.
+Print Assumptions sam_cigar_roundtrip.
+
+Theorem sam_seq_roundtrip :
+  forall len ds, seq_ok len ds ->
+    expand len ds = Ok (map (base_at ds) (seq 0 (Z.to_nat len))) /\
+    contract (map (base_at ds) (seq 0 (Z.to_nat len))) = ds.
+Proof. exact seq_roundtrip_full. Qed.
+Print Assumptions sam_seq_roundtrip.
 
 (** The number texts used by every field: what %d / "0x%x" write is read back
     by Atoi, ParseUint(base 10) and ParseUint(base 0). *)
